@@ -343,6 +343,50 @@ theorem iter1024_no_write {w : Nat} (c : Cfg) (magic : Int) (rev : Bool) (b : Bi
     have : ((0 : Nat) : Int) ≥ n := by omega
     rw [if_pos this]
 
+/-! ### the outer loop's stop test `iterN >= n` may as well be `iterN > n` (blind mutants of bit1024.go:225/271/294/340) -/
+
+/-- the chaining loop with the weaker stop test `iterN > n` -/
+def chainGt {w : Nat} (c : Cfg) (magic : Int) (rev : Bool) (add : BitVec w) (n : Int) :
+    List (Bit64 × Nat) → List (BitVec w) → Int → Nat → Option (List (BitVec w) × Nat)
+  | [], s, _, iterN => some (s, iterN)
+  | (word, k) :: rest, s, cursor, iterN =>
+    if (iterN : Int) > n then some (s, iterN)
+    else match iter64 magic rev word s cursor (BitVec.ofNat w (c.b64 * k) + add) (n - iterN) with
+      | none => none
+      | some (s', e) => chainGt c magic rev add n rest s' (cursor + e) (iterN + e)
+
+theorem chain_stop {w : Nat} (c : Cfg) (magic : Int) (rev : Bool) (add : BitVec w) (n : Int)
+    (ws : List (Bit64 × Nat)) (s : List (BitVec w)) (cursor : Int) (iterN : Nat) (h : (iterN : Int) ≥ n) :
+    chain c magic rev add n ws s cursor iterN = some (s, iterN) := by
+  cases ws with
+  | nil => rfl
+  | cons p rest => obtain ⟨wd, k⟩ := p; simp [chain, h]
+
+/-- when `iterN = n` the weaker test lets the loop go on, but every further word is asked for `n - iterN = 0` values and
+    (by `iter64_no_write`) writes nothing and returns 0 — the results are identical for every input -/
+theorem chainGt_eq_chain {w : Nat} (c : Cfg) (magic : Int) (rev : Bool) (add : BitVec w) (n : Int) :
+    ∀ (ws : List (Bit64 × Nat)) (s : List (BitVec w)) (cursor : Int) (iterN : Nat),
+      chainGt c magic rev add n ws s cursor iterN = chain c magic rev add n ws s cursor iterN
+  | [], _, _, _ => rfl
+  | (wd, k) :: rest, s, cursor, iterN => by
+    unfold chainGt
+    by_cases hgt : (iterN : Int) > n
+    · rw [if_pos hgt, chain_stop c magic rev add n _ s cursor iterN (by omega)]
+    · rw [if_neg hgt]
+      by_cases heq : (iterN : Int) = n
+      · have h0 : n - (iterN : Int) ≤ 0 := by omega
+        rw [iter64_no_write magic rev wd s cursor _ _ h0]
+        simp only
+        rw [chainGt_eq_chain c magic rev add n rest s _ _, chain_stop c magic rev add n rest s _ _ (by omega),
+          chain_stop c magic rev add n _ s cursor iterN (by omega)]
+        simp
+      · have hlt : ¬ (iterN : Int) ≥ n := by omega
+        conv => rhs; unfold chain
+        rw [if_neg hlt]
+        cases iter64 magic rev wd s cursor (BitVec.ofNat w (c.b64 * k) + add) (n - iterN) with
+        | none => rfl
+        | some r => obtain ⟨s', e⟩ := r; exact chainGt_eq_chain c magic rev add n rest s' _ _
+
 /-! ### remaining named operations -/
 
 /-- `Bit64.Full` -/
